@@ -25,6 +25,12 @@ LockedKeys(s, w) == {k \in DOMAIN s.w[w].outs : s.w[w].outs[k].st = "Locked"}
 ExclusiveReservation(s, hv) ==
   \A w \in Wallets(s) : \A a, b \in LiveSent(s, w) \cap DOMAIN hv.lockedBy[w] :
       a # b => hv.lockedBy[w][a] \cap hv.lockedBy[w][b] = {}
+\* what a live sent transaction reserved stays reserved (or is spent on the chain) for as long as
+\* the transaction is live: nothing - a cancel of ANOTHER transaction, a refresh, a repeated step -
+\* hands it back to coin selection "until the first is cancelled or confirmed"
+ReservationHeld(s, hv, w) ==
+  \A t \in LiveSent(s, w) \cap DOMAIN hv.lockedBy[w] : \A k \in hv.lockedBy[w][t] :
+      k \in DOMAIN s.w[w].outs => s.w[w].outs[k].st \in {"Locked", "Spent"}
 SharedInputs(s, hv) ==   \* witness for reports
   {<<w, a, b>> \in {<<w, a, b>> \in UNION {{w} \X LiveSent(s, w) \X LiveSent(s, w) : w \in Wallets(s)} : TRUE} :
       a # b /\ a \in DOMAIN hv.lockedBy[w] /\ b \in DOMAIN hv.lockedBy[w]
